@@ -5,7 +5,7 @@ CFG = {'level': 'exploration',
  'technique': 'runtime monitoring with a differential oracle: CheckFiles against a sequential reference classifier written from the documented '
               'rules (ref/refzip), metamorphic comparison of nine orders of every list, and dir-vs-list agreement (CheckDir vs CheckFiles, '
               'CreateFromDir vs Create) on trees materialised in a sandbox',
- 'level_text': 'For 10^4 (quick) / 5*10^5 (thorough) generated lists with fake Lstat results, each in 9 orders (as generated, 6 PRNG permutations, '
+ 'level_text': 'For 3*10^4 (quick) / 5*10^5 (thorough) generated lists with fake Lstat results, each in 9 orders (as generated, 6 PRNG permutations, '
                'sorted, reversed): every file lands in exactly one of valid/omitted/invalid (distinct paths), the three lists equal the reference '
                'classification (unclean, absolute, vendored with the <1.24 and >=1.24 variants incl. vendor/modules.txt, nested module by a regular '
                'go.mod in any case, .hg_archival.txt, file-path validity, go.mod case, collision with anything listed earlier incl. implied '
